@@ -1280,8 +1280,11 @@ Vdetach(int32 vkey /* IN: vgroup key */)
         }
 
         /* write out vgroup */
-        if (Hputelement(vg->f, DFTAG_VG, vg->oref, Vgbuf, vgpacksize) == FAIL)
+        if (Hputelement(vg->f, DFTAG_VG, vg->oref, Vgbuf, vgpacksize) == FAIL) {
+            /* finish detaching, but tell the caller the vgroup was not saved */
             HERROR(DFE_WRITEERROR);
+            ret_value = FAIL;
+        }
 
         vg->marked = 0;
         vg->new_vg = 0;
